@@ -23,10 +23,11 @@ def RULE(tier):
         "(pending-ack | immediate accept | reject), exchange spontaneous ack / reject / partial fill / full fill / "
         "decide pending request / unsolicited cancel / expire / suspend / resume. Bounded-exhaustive DFS over all "
         f"action sequences to depth {DEPTH[tier]} (state-hash dedup) plus Hypothesis walks up to {WALK[tier]} actions with drawn ClOrdID "
-        "roots ('-'-rich near misses of the '--<n>' suffix), prices, quantities and fill fractions; every prefix is "
+        "roots ('-'-rich near misses of the '--<n>' suffix), prices, quantities (float and int objects, magnitudes 1e-5 .. 1e16) and fill fractions; three "
+        "long chains of 14 requests on one order (suffix --9 -> --10, some rejected, a fill in between); every prefix is "
         "closed (deliver all, consume all, decide pending) on a copy. Per step: status is an FOrdStatus member; whenever "
-        "can_cancel()/can_replace() the request builds without any exception, with an unused ClOrdID and OrigClOrdID = the "
-        "exchange's live ClOrdID, and no request is outstanding. At closure: status, cum_qty, leaves_qty, price, qty equal "
+        "can_cancel()/can_replace() the request builds without any exception, with an unused ClOrdID of the form <root>--<n> for the root the order was created with and OrigClOrdID = the "
+        "exchange's live ClOrdID, and no request is outstanding. At closure: status, cum_qty, leaves_qty, price, qty equal (relative tolerance 1e-9) "
         "the exchange's; finished => is_finished() and no further requests. Non-trivial = run with a request racing a fill "
         "or a reject followed by a further request; distinct by action sequence."
     )
